@@ -466,6 +466,22 @@ def _try_inline(func: ast.AST, name: str, defs: dict) -> bool:
     last = max(k for k, s in enumerate(after) if any(id(u) in {id(n) for n in ast.walk(s)} for u in uses))
     span = after[: last + 1]
     if _is_pure(expr):
+        if not is_path and free:
+            # a computed value (`flag = name in self.names`, `t = a + b`) is moved to its uses: nothing that runs between
+            # the definition and a use may change what the expression reads -- not only by a store (below) but by a call
+            # that is handed, or is made on, something the expression reads (`self.names.remove(name)`, `a.fill(0)`)
+            ids_of = lambda s: {id(n) for n in ast.walk(s)}  # noqa: E731
+            with_use = [k for k, s in enumerate(span) if any(id(u) in ids_of(s) for u in uses)]
+            for k, s in enumerate(span):
+                if k == with_use[-1]:
+                    if not isinstance(s, (ast.If, ast.For, ast.AsyncFor, ast.While, ast.With, ast.Try)):
+                        continue  # the last use sits in a simple statement
+                    head = ids_of(s.test) if isinstance(s, ast.If) else ids_of(s.iter) if isinstance(s, (ast.For, ast.AsyncFor)) else set()
+                    if all(id(u) in head for u in uses if id(u) in ids_of(s)):
+                        continue  # ... or in the header of a compound one, evaluated before its body
+                for c_ in ast.walk(s):
+                    if isinstance(c_, ast.Call) and not _quiet_expr(c_) and any(isinstance(n, ast.Name) and n.id in free for n in ast.walk(c_)):
+                        return False
         for s in span:
             skip = set()
             if s is span[-1] and isinstance(s, (ast.Assign, ast.AnnAssign)) and s.value is not None:
@@ -660,6 +676,182 @@ def dotted_name(e: ast.AST) -> str | None:
     return e.id if isinstance(e, ast.Name) else None
 
 
+def qualified_uses(tree: ast.Module, imports: dict[str, str]) -> list[str]:
+    """Resolved targets of the attribute chains rooted at an imported name (``numpy.multiply``, ``np.linalg.norm``)."""
+    out = set()
+    for n in ast.walk(tree):
+        if isinstance(n, ast.Attribute):
+            parts = []
+            e = n
+            while isinstance(e, ast.Attribute):
+                parts.append(e.attr)
+                e = e.value
+            if isinstance(e, ast.Name) and e.id in imports:
+                out.add(".".join([imports[e.id], *reversed(parts)]))
+    return sorted(out)
+
+
+def normalise_imports(tree: ast.Module, cur: dict[str, str], ref: dict[str, str], ref_qualified: frozenset = frozenset()) -> list[str]:
+    """Give imported things the local name the reference module gives them.
+
+    ``from numpy import where as np_where`` (reference: ``from numpy import where``), ``import numpy as np`` +
+    ``np.where(..)``, ``numpy.where(..)``, ``gemseo.algos.x.Y(..)``: the rules, the shape tables and the quiet-callee
+    table know an imported function by the name the reference module uses. ``cur`` / ``ref`` map local names to
+    qualified targets (``gv.index._collect_imports``). A name is only rewritten when the reference name is not bound
+    to anything else in the current module. Qualified numpy functions the reference does not import at all become
+    their bare name (the engine's tables are keyed by bare names), unless that name is a builtin or bound.
+    """
+    import builtins
+
+    done: list[str] = []
+    by_target: dict[str, list[str]] = {}
+    for name, tgt in ref.items():
+        by_target.setdefault(tgt, []).append(name)
+    inv = {t: ns[0] for t, ns in by_target.items() if len(ns) == 1}
+    bound: set[str] = set()
+    for n in ast.walk(tree):
+        if isinstance(n, ast.Name) and isinstance(n.ctx, (ast.Store, ast.Del)):
+            bound.add(n.id)
+        elif isinstance(n, ast.arg):
+            bound.add(n.arg)
+        elif isinstance(n, (ast.FunctionDef, ast.AsyncFunctionDef, ast.ClassDef)):
+            bound.add(n.name)
+        elif isinstance(n, ast.ExceptHandler) and n.name:
+            bound.add(n.name)
+    # several imports of one local name with different targets (function-level imports): leave the module alone
+    seen: dict[str, set] = {}
+    for n in ast.walk(tree):
+        if isinstance(n, ast.ImportFrom):
+            for a in n.names:
+                seen.setdefault(a.asname or a.name, set()).add((n.module, a.name, n.level))
+        elif isinstance(n, ast.Import):
+            for a in n.names:
+                seen.setdefault(a.asname or a.name.split(".")[0], set()).add((a.name if a.asname else a.name.split(".")[0],))
+    ambiguous = {k for k, v in seen.items() if len(v) > 1}
+
+    def free_for(r: str, tgt: str) -> bool:
+        return r not in bound and r not in ambiguous and (r not in cur or cur[r] == tgt)
+
+    # 1. a different alias of the same target
+    renames: dict[str, str] = {}
+    for name, tgt in cur.items():
+        r = inv.get(tgt)
+        if r and r != name and name not in bound and name not in ambiguous and free_for(r, tgt):
+            renames[name] = r
+    extra: dict[str, str] = {}  # reference-name -> target, for qualified uses rewritten to a bare name
+
+    def chain(e: ast.AST):
+        parts = []
+        while isinstance(e, ast.Attribute):
+            parts.append(e.attr)
+            e = e.value
+        if isinstance(e, ast.Name):
+            return e.id, list(reversed(parts))
+        return None, None
+
+    class T(ast.NodeTransformer):
+        def visit_Attribute(self, node):  # noqa: N802
+            root, parts = chain(node)
+            if root is not None and root in cur and root not in bound and root not in ambiguous and isinstance(node.ctx, ast.Load):
+                full = ".".join([cur[root], *parts])
+                if full in ref_qualified:
+                    self.generic_visit(node)
+                    return node  # the reference module spells it that way itself
+                r = inv.get(full)
+                if r is None and (cur[root] in ("numpy", "numpy.linalg") or cur[root].startswith("numpy.")) and len(parts) == 1 and not hasattr(builtins, parts[0]) and parts[0] not in ref and full.count(".") <= 2:
+                    r = parts[0]
+                if r is not None and free_for(r, full) and renames.get(r) is None:
+                    extra[r] = full
+                    return ast.copy_location(ast.Name(id=r, ctx=ast.Load()), node)
+            self.generic_visit(node)
+            return node
+
+        def visit_Name(self, node):  # noqa: N802
+            if node.id in renames:
+                node.id = renames[node.id]
+            return node
+
+        def visit_alias(self, node):  # noqa: N802
+            local = node.asname or node.name
+            if local in renames:
+                r = renames[local]
+                node.asname = None if r == node.name else r
+            return node
+
+    T().visit(tree)
+    for name, r in renames.items():
+        done.append(f"import {name} -> {r}")
+    pos = max((k for k, st in enumerate(tree.body) if isinstance(st, (ast.Import, ast.ImportFrom))), default=-1) + 1
+    for r, full in sorted(extra.items()):
+        if cur.get(r) == full or renames and r in renames.values():
+            continue
+        mod_, _, attr = full.rpartition(".")
+        imp = ast.ImportFrom(module=mod_, names=[ast.alias(name=attr, asname=None if r == attr else r)], level=0)
+        tree.body.insert(pos, ast.fix_missing_locations(ast.copy_location(imp, tree.body[pos - 1] if pos else tree.body[0])))
+        done.append(f"qualified {full} -> {r}")
+    return done
+
+
+def _replace_node(root: ast.AST, old: ast.AST, new: ast.AST) -> None:
+    for parent in ast.walk(root):
+        for fld, val in ast.iter_fields(parent):
+            if val is old:
+                setattr(parent, fld, new)
+                return
+            if isinstance(val, list):
+                for k, x in enumerate(val):
+                    if x is old:
+                        val[k] = new
+                        return
+
+
+def _hoistable_walruses(st: ast.stmt) -> list[ast.NamedExpr]:
+    """The walrus of a simple statement that can be written as an assignment in front of it: it is always evaluated
+    (not in a conditional position), nothing with a possible effect is evaluated before it, and its target is not read
+    earlier in the statement. At most one per statement (the first)."""
+    parents: dict[int, ast.AST] = {}
+    for p_ in ast.walk(st):
+        for ch in ast.iter_child_nodes(p_):
+            parents[id(ch)] = p_
+    ws = [n for n in ast.walk(st) if isinstance(n, ast.NamedExpr)]
+    if len(ws) != 1:
+        return []
+    w = ws[0]
+    # conditional positions
+    ch = w
+    anc: list[ast.AST] = []
+    while id(ch) in parents:
+        par = parents[id(ch)]
+        if isinstance(par, ast.IfExp) and ch is not par.test:
+            return []
+        if isinstance(par, ast.BoolOp) and ch is not par.values[0]:
+            return []
+        if isinstance(par, ast.Compare) and ch is not par.left and (len(par.comparators) > 1 and ch is not par.comparators[0]):
+            return []
+        if isinstance(par, (ast.Lambda, ast.ListComp, ast.SetComp, ast.DictComp, ast.GeneratorExp, ast.comprehension)):
+            return []
+        anc.append(par)
+        ch = par
+    if isinstance(st, ast.Assign) and any(any(x is w for x in ast.walk(t)) for t in st.targets):
+        return []
+    if isinstance(st, ast.AugAssign):
+        return []  # the target is read before the value is evaluated
+    inside = {id(x) for x in ast.walk(w)}
+    pos = (w.lineno, w.col_offset)
+    for x in ast.walk(st):
+        if id(x) in inside or x is st:
+            continue
+        if isinstance(x, (ast.Call, ast.Await, ast.Yield, ast.YieldFrom, ast.Subscript)) and not any(x is a_ for a_ in anc) and (getattr(x, "lineno", 0), getattr(x, "col_offset", 0)) < pos:
+            return []  # evaluated before the walrus: the order of two effects would change
+        if isinstance(x, ast.Name) and x.id == w.target.id and (x.lineno, x.col_offset) < pos:
+            return []
+    # a call among the ancestors evaluates its function expression first: it must not call anything
+    for a_ in anc:
+        if isinstance(a_, ast.Call) and any(isinstance(y, ast.Call) for y in ast.walk(a_.func)):
+            return []
+    return [w]
+
+
 def canonicalise_idioms(tree: ast.AST) -> int:
     """Small behaviour-preserving rewrites to one spelling.
 
@@ -835,6 +1027,18 @@ def canonicalise_idioms(tree: ast.AST) -> int:
                     w = st.test.values[0]
                     out.append(ast.copy_location(ast.Assign(targets=[ast.Name(id=w.target.id, ctx=ast.Store())], value=w.value), st))
                     st.test.values[0] = ast.copy_location(ast.Name(id=w.target.id, ctx=ast.Load()), w)
+                    n += 1
+                # f((y := e), ..) / x = g((y := e)) -> y = e; f(y, ..)   (a walrus a simple statement always evaluates, first)
+                if isinstance(st, (ast.Expr, ast.Assign, ast.Return, ast.AugAssign)):
+                    for w in _hoistable_walruses(st):
+                        out.append(ast.copy_location(ast.Assign(targets=[ast.Name(id=w.target.id, ctx=ast.Store())], value=w.value), st))
+                        _replace_node(st, w, ast.copy_location(ast.Name(id=w.target.id, ctx=ast.Load()), w))
+                        n += 1
+                # `c or f()` / `c and f()` as a statement -> if not c: f() / if c: f()
+                if isinstance(st, ast.Expr) and isinstance(st.value, ast.BoolOp) and len(st.value.values) == 2 and isinstance(st.value.values[1], ast.Call):
+                    c_, act = st.value.values
+                    test = c_ if isinstance(st.value.op, ast.And) else ast.copy_location(ast.UnaryOp(op=ast.Not(), operand=c_), c_)
+                    st = ast.copy_location(ast.If(test=test, body=[ast.copy_location(ast.Expr(value=act), st)], orelse=[]), st)
                     n += 1
                 # xs += [e] -> xs.append(e)
                 if isinstance(st, ast.AugAssign) and isinstance(st.op, ast.Add) and isinstance(st.value, ast.List) and len(st.value.elts) == 1 and not isinstance(st.value.elts[0], ast.Starred) and isinstance(st.target, (ast.Name, ast.Attribute)):
@@ -1162,6 +1366,10 @@ def _inline_in(caller: ast.AST, helpers: dict, is_method: bool) -> int:
                 h = _helper_call(call, helpers, is_method)
                 if h is caller:
                     continue
+                if kind == "value" and isinstance(st, ast.Assign) and len(st.targets) == 1 and isinstance(st.targets[0], ast.Name) and not any(isinstance(n, ast.Name) and n.id == st.targets[0].id for n in ast.walk(call)):
+                    # `T = self.helper(..)`: the old value of T is dead once the call's arguments are evaluated, so a
+                    # local of the helper may be called T (as the un-extracted code would call it)
+                    caller_names = caller_names - {st.targets[0].id}
                 inst = _instantiate(h, call, is_method, caller_names)
                 if inst is None and isinstance(st, ast.Return):
                     inst = _instantiate(h, call, is_method, caller_names, keep_returns=True)
@@ -1186,7 +1394,20 @@ def _inline_in(caller: ast.AST, helpers: dict, is_method: bool) -> int:
                         new.append(ast.Expr(value=val))
                 elif kind == "value":
                     st.value = val
-                    new.append(st)
+                    single = isinstance(st, ast.Assign) and len(st.targets) == 1 and isinstance(st.targets[0], ast.Name)
+                    if single and isinstance(val, ast.Name) and val.id != st.targets[0].id:
+                        # `L = ..; ..; T = L` with L a local of the helper: call it T from the start
+                        t_id, l_id = st.targets[0].id, val.id
+                        names_new = [n for s_ in new for n in ast.walk(s_) if isinstance(n, ast.Name)]
+                        l_stored = any(n.id == l_id and isinstance(n.ctx, ast.Store) for n in names_new)
+                        l_elsewhere = any(isinstance(n, ast.Name) and n.id == l_id for b_ in _blocks(caller) for s_ in b_ if s_ is not st for n in ast.walk(s_) if not any(n is m for m in names_new))
+                        if l_stored and not l_elsewhere and not any(n.id == t_id for n in names_new) and t_id not in {a.arg for a in caller.args.args}:
+                            for n in names_new:
+                                if n.id == l_id:
+                                    n.id = t_id
+                            val = ast.Name(id=t_id, ctx=ast.Load())
+                    if not (single and isinstance(val, ast.Name) and val.id == st.targets[0].id):
+                        new.append(st)  # (`T = T` is dropped)
                 elif kind == "test":
                     st.test = val
                     new.append(st)
